@@ -5993,6 +5993,14 @@ moveto_axis_node_next_first(const struct lyd_node **iter, enum lyxp_node_type *i
         break;
 
     case LYXP_AXIS_FOLLOWING:
+        if (node_type == LYXP_NODE_ELEM) {
+            /* first next sibling of the node or of its closest ancestor that has any */
+            for (next = node; next && !next->next; next = lyd_parent(next)) {}
+            next = next ? next->next : NULL;
+            next_type = next ? LYXP_NODE_ELEM : 0;
+        } /* else nothing follows */
+        break;
+
     case LYXP_AXIS_FOLLOWING_SIBLING:
         if (node_type == LYXP_NODE_ELEM) {
             /* first next sibling */
